@@ -1006,4 +1006,113 @@ example : let dT : Table := [("k", [.int 1, .int 2]), ("data", [.str "o1", .str 
   subst this
   exact ⟨0, by decide, by intro c hc; simp at hc; subst hc; decide⟩
 
+/-! ### round k2: the coverage hypothesis derived from the expiry INPUT (open since round j2) -/
+section round_k2
+
+/-- **the expiry INPUT is covered**: a scalar expiry is `None`, the missing date or a spelling of an absolute instant; an expiry
+TABLE holds such a cell in every row of its value column (the column `expiry`, else `data`, else its only non-key column), and the
+default that fills the keys it lacks - `None` unless the caller's `defaults` name `expiry` - is covered too.  A statement about
+what the caller hands in, not about the joined table. -/
+def ExpiryInputCovered (on : List String) (dflts : List (String × Cell)) : PInput → Prop
+  | .scalar c => expiryCovered c = true
+  | .table t => (∀ j, j < t.nrows → expiryCovered (t.jcellAt (valueCol t "expiry" on) j) = true) ∧
+      ∀ v, dfltOf dflts "expiry" = some v → expiryCovered v = true
+
+/-- the defaults `perdictable` hands to `join`: the caller's, then `data → None`, `expiry → None` unless named -/
+def fullDefaults (defaults : List (String × Cell)) : List (String × Cell) :=
+  defaults ++ (if (defaults.map (·.1)).contains "data" then [] else [("data", Cell.none)]) ++
+    (if (defaults.map (·.1)).contains "expiry" then [] else [("expiry", Cell.none)])
+
+/-- the default of `expiry` is the caller's, else `None` -/
+theorem dfltOf_fullDefaults_expiry (defaults : List (String × Cell)) (v : Cell)
+    (h : dfltOf (fullDefaults defaults) "expiry" = some v) : v = .none ∨ dfltOf defaults "expiry" = some v := by
+  unfold fullDefaults at h
+  by_cases he : (defaults.map (·.1)).contains "expiry" = true
+  · right
+    simp only [he, if_true, List.append_nil] at h
+    by_cases hd : (defaults.map (·.1)).contains "data" = true
+    · rw [if_pos hd, List.append_nil] at h; exact h
+    · rw [if_neg hd] at h
+      simpa [dfltOf, List.reverse_append, List.find?_append, List.find?_cons] using h
+  · left
+    simp only [he, if_false, Bool.false_eq_true] at h
+    simp [dfltOf, List.reverse_append] at h
+    exact h.symm
+
+/-- **`hcov` derived from the expiry input** (open since round j2: the hypothesis of `perdictable_end_to_end_covered` was about the
+JOINED table): every expiry cell of the joined table is a cell of the expiry input - the scalar broadcast (`JoinSpec.scalars`), a
+cell of the table's value column at a row with that key, or the default (`JoinSpec.values`) - hence covered. -/
+theorem expiry_cells_covered {inputs : List (String × PInput)} {on : List String} {dflts : List (String × Cell)} {ds : Table}
+    (expiry : PInput) (hs : JoinSpec (inputs ++ [("expiry", expiry)]) on dflts ds)
+    (hc : ExpiryInputCovered on dflts expiry) :
+    ∀ i, i < ds.nrows → expiryCovered (ds.jcellAt "expiry" i) = true := by
+  intro i hi
+  cases expiry with
+  | scalar c =>
+    have := hs.scalars i hi ("expiry", c) (mem_scalarInputs.2 (by simp))
+    simp only at this
+    rw [this]; exact hc
+  | table t =>
+    have hv := hs.values i hi (inputSrc on dflts ("expiry", t))
+      (List.mem_map.2 ⟨("expiry", t), mem_tableInputs.2 (by simp), rfl⟩)
+    rcases hv with ⟨j, hj, _, hval⟩ | ⟨_, v, hd, hval⟩
+    · have e : ds.jcellAt "expiry" i = (inputRows on "expiry" t).row j "expiry" := hval
+      rw [e]
+      simp only [inputRows, if_true]
+      exact hc.1 j hj
+    · have e : ds.jcellAt "expiry" i = v := hval
+      rw [e]; exact hc.2 v hd
+
+/-- **the property end to end, from the inputs alone**: `perdictable_end_to_end_covered` with its hypothesis on the joined table
+replaced by `ExpiryInputCovered` on the expiry the caller supplies (scalar or table) and on the caller's default for it. -/
+theorem perdictable_end_to_end_input (f : List Cell → Val) (params on : List String)
+    (defaults : List (String × Cell)) (inputs : List (String × PInput)) (expiry : PInput)
+    (today : Int) (res : PResult × List (List Cell))
+    (hon : on ≠ []) (hnames : ((inputs ++ [("expiry", expiry)]).map (·.1)).Nodup)
+    (hoff : ∀ kv ∈ inputs ++ [("expiry", expiry)], kv.1 ∉ on)
+    (htab : ∀ kv ∈ tableInputs (inputs ++ [("expiry", expiry)]),
+      kv.2.WF ∧ kv.2.cols.Nodup ∧ ∀ c ∈ on, c ∈ kv.2.cols)
+    (hany : tableInputs (inputs ++ [("expiry", expiry)]) ≠ [])
+    (ifNone : Bool)
+    (hexp : match expiry with
+      | .scalar c => expiryCovered c = true
+      | .table t => ∀ j, j < t.nrows → expiryCovered (t.jcellAt (valueCol t "expiry" on) j) = true)
+    (hdef : ∀ v, dfltOf defaults "expiry" = some v → expiryCovered v = true)
+    (h : perdictable f params on defaults inputs expiry today ifNone = some (.ok res)) :
+    ∃ ds : Table,
+      JoinSpec (inputs ++ [("expiry", expiry)]) on (fullDefaults defaults) ds ∧
+      ((ds.nrows = 0 ∧ res = (.noRows ((inputs.find? (·.1 == "data")).map (·.2)), [])) ∨
+       (ds.nrows ≠ 0 ∧ ∃ runs : Nat → Bool,
+        (∀ i, i < ds.nrows → (runs i = false ↔ KeptSpec ifNone ds today i)) ∧
+        res = (.table (Table.toV (on.map fun k => (k, (ds.col? k).getD [])) ++
+            [("data", (List.range ds.nrows).map fun i =>
+              if runs i then f (rowArgs ds params i) else .cell (ds.jcellAt "data" i))]),
+          ((List.range ds.nrows).filter runs).map (rowArgs ds params)))) := by
+  have hc : ExpiryInputCovered on (fullDefaults defaults) expiry := by
+    have hd : ∀ v, dfltOf (fullDefaults defaults) "expiry" = some v → expiryCovered v = true := fun v hv => by
+      rcases dfltOf_fullDefaults_expiry defaults v hv with rfl | h'
+      · rfl
+      · exact hdef v h'
+    cases expiry with
+    | scalar c => exact hexp
+    | table t => exact ⟨hexp, hd⟩
+  have hcov : ∀ ds, pdJoin (inputs ++ [("expiry", expiry)]) on (fullDefaults defaults) = some (.ok ds) →
+      ∀ i, i < ds.nrows → expiryCovered (ds.jcellAt "expiry" i) = true := fun ds hj =>
+    expiry_cells_covered expiry (join_keys _ on _ ds hon hnames hoff htab hany hj) hc
+  exact perdictable_end_to_end_covered f params on defaults inputs expiry today res hon hnames hoff htab hany ifNone hcov h
+
+/-- the hypothesis on concrete inputs: a scalar date string, and an expiry table keyed by `k` with a past date and a `None` -/
+example : ExpiryInputCovered ["k"] (fullDefaults []) (.scalar (.str "2000-01-01")) := by
+  show expiryCovered _ = true; decide
+example : ExpiryInputCovered ["k"] (fullDefaults [])
+    (.table [("k", [.int 1, .int 2]), ("expiry", [.dt (730119 * 86400000000), .none])]) := by
+  refine ⟨fun j hj => ?_, fun v hv => ?_⟩
+  · have : j = 0 ∨ j = 1 := by simp [Table.nrows] at hj; omega
+    rcases this with rfl | rfl <;> decide
+  · rcases dfltOf_fullDefaults_expiry [] v hv with rfl | h
+    · rfl
+    · simp [dfltOf] at h
+
+end round_k2
+
 end Pyg.Props.C20
